@@ -44,7 +44,7 @@ CLAIMS = {
          "Equivalence with the hand expansion on concrete programs is not decided.", "§4 C07"),
  "C08": ("grammar extraction from nom combinators: terminal case and trivia-wrapper rules",
          "Every terminal containing a letter is matched case-insensitively; every terminal is reachable only behind a trivia wrapper unless tabled; text kept from a "
-         "case-insensitive keyword is never compared case-sensitively, neither against a literal anywhere nor along its flow out of the parser closure into the function it is handed to; the empty line comment is accepted; no parser function decides on the raw text of the input (starts_with / trim / find on a fragment) outside a two-line table. What the hand-written nested-comment scanner computes and equality of outputs for concrete layout variants is not decided.", "§4 C08"),
+         "case-insensitive keyword is never compared case-sensitively, neither against a literal anywhere nor along its flow out of the parser closure into the function it is handed to; the empty line comment is accepted; no parser function decides on the raw text of the input (starts_with / trim / find on a fragment) outside a two-line table; no look-ahead (`not`, `peek`) skips trivia. What the hand-written nested-comment scanner computes and equality of outputs for concrete layout variants is not decided.", "§4 C08"),
  "C09": ("table agreement + container-type and shape rules on HIR/MIR",
          "Config keys agree between validator, extractor and reference; banks and segments live in insertion-ordered containers and write_banks walks its Vec; the prg "
          "header bytes and defaults have the documented shape; every documented error has a diagnostic and Ok is returned only without errors; no configured option is "
@@ -52,10 +52,10 @@ CLAIMS = {
  "C10": ("type-directed hash-order detection on MIR (receiver types embed their source iterator) + frozen classification table + total-sort recognition",
          "Every consumer of a std hash_map/hash_set iterator in non-test code is order-insensitive by nature, sorted on a key that identifies the element, or tabled safe "
          "with a reason; containers whose order reaches output are insertion-ordered; the CLI emitter prints diagnostics in collection order. A new unclassified site is "
-         "reported; a walk in hash order branches on no first-come membership answer (visited-sets), so tabled reasons stay true. Environment nondeterminism is not decided.", "§4 C10"),
+         "reported; a walk in hash order branches on no first-come membership answer (visited-sets), so tabled reasons stay true; nothing reachable from `mos build` calls a process-seeded hasher, the clock, the process / thread identity, the environment or formats an address. File-system enumeration order and thread scheduling are not decided.", "§4 C10"),
  "C11": ("must-pass-through on MIR + two interprocedural label propagations (target vs physical address space)",
          "Single emission choke point with a source-map entry of exactly the emitted length on every path; no comparison or subtraction mixes a target-space address with "
-         "a physical one without the relocation offset; macro re-attribution only under the listing option and by position; half-open address lookups; no context field is overwritten before and read after a nested activation of the code generator without being restored (re-entrancy analysis); listing rows are cut at address gaps, read from the entry's own segment and written to distinct files; the row without bytes and the rows with bytes are decided on the same collection (every source line gets a row); no collection there is keyed by a target address alone; the source map is append-only as long as entries are addressed by position. Row layout on concrete programs is not decided.", "§4 C11"),
+         "a physical one without the relocation offset; macro re-attribution only under the listing option and by position; half-open address lookups; no context field is overwritten before and read after a nested activation of the code generator without being restored (re-entrancy analysis); listing rows are cut at address gaps, read from the entry's own segment and written to distinct files; the row without bytes and the rows with bytes are decided on the same collection (every source line gets a row); no collection there is keyed by a target address alone; the source map is append-only as long as entries are addressed by position; distinct source paths inside the project get distinct listing files. Row layout on concrete programs is not decided.", "§4 C11"),
  "C12": ("formatter coverage and trivia-carrier rules on typed HIR + dominance on MIR",
          "Every text-carrying field of every AST variant is emitted; a Located emitted through `.data` is the token's leading element or tabled (so its comments cannot be lost); "
          "both comment kinds become comment chunks and only blank lines are suppressed; `mos format` writes only after the whole project parsed; a chunk-dropping decision never depends on the text of the line; no Located value of an argument list is written through its data alone and no trivia list is copied selectively by item kind; a joined line is replaced by a part of itself only where the rest is blank. Token-sequence and byte "
@@ -66,10 +66,10 @@ CLAIMS = {
          "capabilities equal registered handlers; every field of the server context outside a five-line table is re-derived on every path of perform_codegen and request handlers store into no other field; range-only answers (lenses, highlights, semantic tokens, document symbols) are confined to the requested document; the record of what the client was told is written by the publisher only; no constant is added to the byte index of a character found by predicate. Equality with a fresh server on concrete histories is not decided.", "§4 C14"),
  "C15": ("analysis-path coverage on typed HIR (completeness clause only)",
          "Every expression, interpolated string and block of every statement kind reaches a usage-tracking evaluation on the path the language server takes; the usage database "
-         "and the evaluator resolve through one traversal; usages carry per-segment spans; rename builds its edits from the definition and all recorded usages of every import of the defining file, in original-document coordinates and only where the recorded text is the symbol's name (an import's alias stays), and not at all where an occurrence also stands for a symbol defined elsewhere; every occurrence gets the new name itself (no second look-up by name) and the per-file edit lists of a symbol's copies are merged, never replaced. Everything "
+         "and the evaluator resolve through one traversal; usages carry per-segment spans; rename builds its edits from the definition and all recorded usages of every import of the defining file, in original-document coordinates and only where the recorded text is the symbol's name (an import's alias stays), and not at all where an occurrence also stands for a symbol defined elsewhere; every occurrence gets the new name itself (no second look-up by name) and the per-file edit lists of a symbol's copies are merged, never replaced; whether a usage is recorded does not depend on fields of the code generator other than its options and symbol table. Everything "
          "else in C15 (byte-identical output after rename, renaming back) is not decided.", "§4 C15/C16"),
  "C16": ("analysis-path coverage on typed HIR (completeness clause only)",
-         "Same completeness clause as C15 plus single-resolver agreement, per-segment usage spans, a per-pass reset of the usage database and a fixed, narrowest-first order among the definitions at a position; references and highlights select the same symbol definitions and answer each place once; the branch of an .if that is not taken is analysed in a scope of its own; a column, which counts characters, is never taken for a number of bytes in the code map, the analysis database and the source map. Which occurrence binds where on concrete programs is not decided.", "§4 C15/C16"),
+         "Same completeness clause as C15 plus single-resolver agreement, per-segment usage spans, a per-pass reset of the usage database and a fixed, narrowest-first order among the definitions at a position; references and highlights select the same symbol definitions and answer each place once; the branch of an .if that is not taken is analysed in a scope of its own; a column, which counts characters, is never taken for a number of bytes in the code map, the analysis database and the source map; whether a usage is recorded does not depend on generator state. Which occurrence binds where on concrete programs is not decided.", "§4 C15/C16"),
  "C17": ("label propagation BYTELEN → LSP positions; dominance and shape rules on HIR",
          "No UTF-8 byte length/offset becomes an LSP character in the formatting answer; formatting only without diagnostics; the language server and the CLI share one formatter "
          "and the server uses default options; the edit loop advances its position tracker over deleted and unchanged chunks only, in merged edits too; no character-counting column of the code map reaches an edit position; the diff is taken against the stored buffer itself. The diff-to-edit result on concrete buffers is "
@@ -79,10 +79,10 @@ CLAIMS = {
          "success only at BRK after the assertions at that address; exit status 1 iff a test failed; memory accessors do not slice RAM unchecked; the assertion scan covers every pending element; relocated segments are loaded where the cpu runs them; the runner keeps only the assertions and traces of the bank it loaded. The emulator itself is external.", "§4 C18"),
  "C19": ("guard-liveness must-analysis on MIR + shape rules on HIR (lock-coverage and stepping-shape clauses)",
          "In the machine thread every CPU-advancing call happens under a running-state guard taken before the state test; pause reads the program counter under the guard that "
-         "covers the store of Stopped(pc); the breakpoint test dominates every step of a free run and searches the shared list under its lock, exempting only the address the machine was halted at; next/stepIn/stepOut step under the same guard and stop through pause; next/stepOut follow the call depth (jsr/rts paired, not the stack pointer); breakpoints are kept per source file; evaluate fetches registers and flags on every path to the expression evaluator. All other interleavings and stepping on concrete programs are not decided.", "§4 C19"),
+         "covers the store of Stopped(pc); the breakpoint test dominates every step of a free run and searches the shared list under its lock, exempting only the address the machine was halted at; next/stepIn/stepOut step under the same guard and stop through pause; next/stepOut follow the call depth (jsr/rts paired, not the stack pointer); breakpoints are kept per source file; evaluate fetches registers and flags on every path to the expression evaluator; every address range of a source line keeps its breakpoint; the adapter-backed ram() is registered only for machines without a program of their own. All other interleavings and stepping on concrete programs are not decided.", "§4 C19"),
  "C20": ("ownership/escape rule for Arc::try_unwrap + call-graph rules for blocking primitives + self-deadlock analysis over lock guards (MIR must-liveness)",
          "No force-unwrapped Arc::try_unwrap on an Arc whose clone another long-lived owner keeps; no joined thread can sit in a blocking accept; shutdown notifies handlers "
-         "before answering, never waits on another thread while doing so, and the debug session listens for it and completes the selected operation; no thread asks for a lock it already holds; a thread that its owner joins has no untimed wait the owner does not wake; the exit status does not depend on the debugger thread (no forced join result, no explicit panic reachable from the session loop outside a table, no forced configuration); shutdown handlers registered late are signalled at once; sleeps reachable from joined threads are bounded constants; the thread that accepts connections reads from no socket without a timeout. Promptness beyond that and the cancellation of a step that never ends are not decided.", "§4 C20"),
+         "before answering, never waits on another thread while doing so, and the debug session listens for it and completes the selected operation; no thread asks for a lock it already holds; a thread that its owner joins has no untimed wait the owner does not wake; the exit status does not depend on the debugger thread (no forced join result, no explicit panic reachable from the session loop outside a table, no forced configuration); shutdown handlers registered late are signalled at once; sleeps reachable from joined threads are bounded constants; the thread that accepts connections reads from no socket without a timeout; no destructor waits for a thread and the debugger thread is joined only behind the language server's main loop. Promptness beyond that and the cancellation of a step that never ends are not decided.", "§4 C20"),
 }
 
 NA = {
